@@ -196,10 +196,14 @@ class World:
         got["warnings"] = [str(w.message)[:200] for w in wlist]
         # the result must still be formattable / summarisable (C05)
         try:
-            str(st)
-            st.format_flat()
+            text = str(st)
+            flat = "".join(st.format_flat())
             st.as_stdlib_summary(show_contexts=True)
             got["renders"] = True
+            # ... and a recorded error is REPORTED by both renderings, whatever else the Stack has (frames, a leaf)
+            if st.error is not None and ("Error while extracting stack" not in text or "Error while extracting stack" not in flat):
+                got["renders"] = "the renderings do not show the recorded error (leaf %s, %d frames)" % (
+                    "present" if st.leaf is not None else "absent", len(st.frames))
         except BaseException as ex:
             got["renders"] = repr(ex)
         # extract_outermost contract (C16) on the same tables
